@@ -134,14 +134,20 @@ pub enum Kind {
 pub struct ShadowNode {
     pub kind: Kind,
     pub parent: Option<usize>,
+    /// the handle-bearing children, in document order (text nodes, doctypes and clones left out)
+    pub children: Vec<usize>,
     pub local: Option<String>,
+    /// attribute names of an element (kept up to date by `add_attrs_if_missing`)
+    pub attr_names: Vec<QualName>,
     pub template_contents: Option<usize>,
 }
 
-/// The handle-bearing nodes of the DOM being built: kind and parent link.  Text nodes, doctypes
-/// and clones have no handle and can never be a parent, so the contract does not need them
-/// (except "the document has a doctype child": `doctypes` holds the parent of every doctype node,
-/// which only `reparent_children` can change).
+/// The handle-bearing nodes of the DOM being built: kind, parent link, ordered child list.  Text
+/// nodes, doctypes and clones have no handle and can never be a parent, so the contract does not
+/// need them (except "the document has a doctype child": `doctypes` holds the parent of every
+/// doctype node, which only `reparent_children` can change).  The order of the children is needed
+/// for one thing only: `maybe_clone_an_option_into_selectedcontent` detaches the children of the
+/// select's *first* selectedcontent descendant *in tree order*.
 #[derive(Default)]
 pub struct Shadow {
     pub nodes: Vec<ShadowNode>,
@@ -149,6 +155,86 @@ pub struct Shadow {
 }
 
 impl Shadow {
+    fn detach(&mut self, c: usize) {
+        if let Some(p) = self.nodes[c].parent.take() {
+            self.nodes[p].children.retain(|&x| x != c);
+        }
+    }
+    fn attach_last(&mut self, p: usize, c: usize) {
+        self.nodes[c].parent = Some(p);
+        self.nodes[p].children.push(c);
+    }
+    /// `c` becomes the child of `sibling`'s parent immediately before `sibling` (detached first)
+    fn attach_before(&mut self, sibling: usize, c: usize) {
+        self.detach(c);
+        if let Some(p) = self.nodes[sibling].parent {
+            let i = self.nodes[p]
+                .children
+                .iter()
+                .position(|&x| x == sibling)
+                .unwrap_or(self.nodes[p].children.len());
+            self.nodes[c].parent = Some(p);
+            self.nodes[p].children.insert(i, c);
+        }
+    }
+    fn has_attr_local(&self, h: usize, local: &str) -> bool {
+        self.nodes[h].attr_names.iter().any(|q| &*q.local == local)
+    }
+    /// the standard's (and, since /repo ebdbd68, RcDom's) choice of the selectedcontent that
+    /// mirrors `option`, over the handle-bearing nodes: `H5V.Model.Dom.cloneTarget .fixed`
+    fn clone_target(&self, option: usize) -> Option<usize> {
+        let mut seen_optgroup = false;
+        let mut cur = self.nodes[option].parent;
+        let mut select = None;
+        let mut steps = 0;
+        while let Some(c) = cur {
+            steps += 1;
+            if steps > self.nodes.len() + 1 {
+                return None;
+            }
+            if self.nodes[c].kind == Kind::Element {
+                match self.nodes[c].local.as_deref() {
+                    Some("datalist") | Some("hr") | Some("option") => return None,
+                    Some("optgroup") => {
+                        if seen_optgroup {
+                            return None;
+                        }
+                        seen_optgroup = true;
+                    },
+                    Some("select") => {
+                        select = Some(c);
+                        break;
+                    },
+                    _ => {},
+                }
+            }
+            cur = self.nodes[c].parent;
+        }
+        let select = select?;
+        if self.has_attr_local(select, "multiple") {
+            return None;
+        }
+        let mut stack: Vec<usize> = self.nodes[select].children.iter().rev().cloned().collect();
+        let mut budget = 4 * self.nodes.len() + 4;
+        let mut found = None;
+        while let Some(n) = stack.pop() {
+            if budget == 0 {
+                return None;
+            }
+            budget -= 1;
+            if self.nodes[n].kind == Kind::Element && self.nodes[n].local.as_deref() == Some("selectedcontent") {
+                found = Some(n);
+                break;
+            }
+            stack.extend(self.nodes[n].children.iter().rev().cloned());
+        }
+        let sc = found?;
+        if self.has_attr_local(option, "selected") {
+            Some(sc)
+        } else {
+            None
+        }
+    }
     fn is_container(&self, h: usize) -> bool {
         matches!(self.nodes[h].kind, Kind::Document | Kind::Element)
     }
@@ -298,7 +384,9 @@ impl<S: TreeSink> TracingSink<S> {
         self.shadow.borrow_mut().nodes.push(ShadowNode {
             kind,
             parent: None,
+            children: vec![],
             local,
+            attr_names: vec![],
             template_contents: None,
         });
         if self.keep_handles {
@@ -380,8 +468,10 @@ impl<S: TreeSink> TreeSink for TracingSink<S> {
         );
         let template = flags.template;
         let local = name.local.to_string();
+        let names: Vec<QualName> = attrs.iter().map(|a| a.name.clone()).collect();
         let h = self.inner.create_element(name, attrs, flags);
         let th = self.register(h, Kind::Element, Some(local));
+        self.shadow.borrow_mut().nodes[th.id].attr_names = names;
         if template {
             // number the template contents right away (element k, contents k+1)
             let tc = self.inner.get_template_contents(&th.inner);
@@ -410,7 +500,7 @@ impl<S: TreeSink> TreeSink for TracingSink<S> {
         self.log(format!("ap,{},{}", parent.id, child_str(&child)), w);
         self.inner.append(&parent.inner, child_inner(child));
         if let Some(c) = cid {
-            self.shadow.borrow_mut().nodes[c].parent = Some(parent.id);
+            self.shadow.borrow_mut().attach_last(parent.id, c);
         }
     }
 
@@ -443,12 +533,11 @@ impl<S: TreeSink> TreeSink for TracingSink<S> {
             .append_based_on_parent_node(&element.inner, &prev_element.inner, child_inner(child));
         if let Some(c) = cid {
             let mut sh = self.shadow.borrow_mut();
-            let np = if has_parent {
-                sh.nodes[element.id].parent
+            if has_parent {
+                sh.attach_before(element.id, c);
             } else {
-                Some(prev_element.id)
-            };
-            sh.nodes[c].parent = np;
+                sh.attach_last(prev_element.id, c);
+            }
         }
     }
 
@@ -523,9 +612,7 @@ impl<S: TreeSink> TreeSink for TracingSink<S> {
         self.log(format!("abs,{},{}", sibling.id, child_str(&new_node)), w);
         self.inner.append_before_sibling(&sibling.inner, child_inner(new_node));
         if let Some(c) = cid {
-            let mut sh = self.shadow.borrow_mut();
-            let np = sh.nodes[sibling.id].parent;
-            sh.nodes[c].parent = np;
+            self.shadow.borrow_mut().attach_before(sibling.id, c);
         }
     }
 
@@ -536,6 +623,15 @@ impl<S: TreeSink> TreeSink for TracingSink<S> {
             w.push("duplicate-attribute-name");
         }
         self.log(format!("aa,{},{}", target.id, show_attr_vec(&attrs)), w);
+        {
+            let mut sh = self.shadow.borrow_mut();
+            let have = sh.nodes[target.id].attr_names.clone();
+            for a in &attrs {
+                if !have.contains(&a.name) {
+                    sh.nodes[target.id].attr_names.push(a.name.clone());
+                }
+            }
+        }
         self.inner.add_attrs_if_missing(&target.inner, attrs)
     }
 
@@ -573,7 +669,7 @@ impl<S: TreeSink> TreeSink for TracingSink<S> {
     fn remove_from_parent(&self, target: &Self::Handle) {
         self.log(format!("rm,{}", target.id), vec![]);
         self.inner.remove_from_parent(&target.inner);
-        self.shadow.borrow_mut().nodes[target.id].parent = None;
+        self.shadow.borrow_mut().detach(target.id);
     }
 
     fn reparent_children(&self, node: &Self::Handle, new_parent: &Self::Handle) {
@@ -590,10 +686,12 @@ impl<S: TreeSink> TreeSink for TracingSink<S> {
         self.log(format!("rc,{},{}", node.id, new_parent.id), w);
         self.inner.reparent_children(&node.inner, &new_parent.inner);
         let mut sh = self.shadow.borrow_mut();
-        for n in sh.nodes.iter_mut() {
-            if n.parent == Some(node.id) {
-                n.parent = Some(new_parent.id);
+        if node.id != new_parent.id {
+            let moved = std::mem::take(&mut sh.nodes[node.id].children);
+            for &c in &moved {
+                sh.nodes[c].parent = Some(new_parent.id);
             }
+            sh.nodes[new_parent.id].children.extend(moved);
         }
         for d in sh.doctypes.iter_mut() {
             if *d == node.id {
@@ -645,8 +743,17 @@ impl<S: TreeSink> TreeSink for TracingSink<S> {
             w.push("not-an-option-element");
         }
         self.log(format!("mc,{}", option.id), w);
-        // NOTE: the shadow assumes the sink clones into *new* nodes and detaches nothing that has a
-        // handle (true of RcDom as it stands, where this call never changes the tree).
-        self.inner.maybe_clone_an_option_into_selectedcontent(&option.inner)
+        self.inner.maybe_clone_an_option_into_selectedcontent(&option.inner);
+        // "replace all" within the selectedcontent: its old children are detached (the copies that
+        // replace them have no handle).  Sinks that leave the trait's default (no mirroring) keep
+        // the old children attached; the shadow then over-approximates nothing the contract uses
+        // except `child-has-parent` for a re-appended old child, which a builder never does.
+        let mut sh = self.shadow.borrow_mut();
+        if let Some(sc) = sh.clone_target(option.id) {
+            let old = std::mem::take(&mut sh.nodes[sc].children);
+            for c in old {
+                sh.nodes[c].parent = None;
+            }
+        }
     }
 }
